@@ -194,7 +194,9 @@ func verifyFunction(P *Program, db *SpecDB, ti *TypeInfo, fn *ssa.Function, c *C
 			continue
 		}
 		e.emit("; axiom " + ax.Name)
+		lo := len(e.out)
 		e.assert(t)
+		e.axiomLines = append(e.axiomLines, axiomLine{lo: lo, hi: len(e.out), syms: ghostSymbols(t)})
 	}
 	entry := st.clone()
 	fr.entry = entry
@@ -305,6 +307,13 @@ func verifyFunction(P *Program, db *SpecDB, ti *TypeInfo, fn *ssa.Function, c *C
 			e.unsupportedf("no normal return is reachable; ensures clauses would be vacuous")
 		}
 	}
+	// call-site assertions whose call site was not found
+	for _, key := range sortedKeys(c.CallAsserts) {
+		if !c.callSeen[key] {
+			e.unsupportedf("call-site assertion: no call site %s in %s (call removed or renumbered?)", key, fn)
+		}
+	}
+	c.callSeen = nil
 	// panics
 	switch c.PanicMode {
 	case "never":
@@ -430,4 +439,40 @@ func havocCondMemo(st *State, memo map[*State]string) string {
 	}
 	memo[st] = r
 	return r
+}
+
+// axiomLine: the assert lines [lo,hi) of e.out state an axiom about the ghost symbols syms; the axiom is left out of an
+// obligation's script when none of these symbols occurs anywhere else in that script (it then constrains nothing the
+// obligation talks about: leaving it out is sound and complete, and keeps the quantifier load of the solvers small).
+type axiomLine struct {
+	lo, hi int
+	syms   []string
+}
+
+func ghostSymbols(t string) []string {
+	seen := map[string]bool{}
+	var out []string
+	for i := 0; i < len(t); i++ {
+		if t[i] != '|' {
+			continue
+		}
+		j := strings.IndexByte(t[i+1:], '|')
+		if j < 0 {
+			break
+		}
+		name := t[i : i+j+2]
+		i += j + 1
+		if strings.HasPrefix(name, "|G!") || strings.HasPrefix(name, "|ghost!") || strings.HasPrefix(name, "|pure!") {
+			// ghost vars are versioned (G!x@0, G!x@17): the base name identifies the component
+			base := name
+			if k := strings.LastIndex(name, "@"); k > 0 && strings.HasPrefix(name, "|G!") {
+				base = name[:k]
+			}
+			if !seen[base] {
+				seen[base] = true
+				out = append(out, base)
+			}
+		}
+	}
+	return out
 }
